@@ -1,4 +1,5 @@
 import Wx.Pure.Gen.SignalPrio
+import Wx.Pure.Gen.SignalListen
 /-! How the signal source hands signals to the event queue (`crates/lib/src/sources/signal.rs`, regenerated on every run).
     C08's "an interrupt or terminate signal leads to exactly this shutdown" and C02's "an urgent event flushes the current batch
     immediately" meet here: INT and TERM must travel as URGENT events, otherwise the shutdown would wait for the debounce window. -/
@@ -21,5 +22,11 @@ theorem other_signals_are_high : ∀ s ∈ ["Hangup", "ForceStop", "Quit", "User
 
 /-- nothing else is singled out -/
 theorem only_two_signals_are_singled_out : Gen.signalPrio.map (·.1) = ["Interrupt", "Terminate"] := by decide
+
+/-- **every signal the source listens for is reported as itself** (unix worker, regenerated on every run): the six listeners, each
+    feeding the `Signal` variant of its own name, nothing unpaired -/
+theorem listened_signals_are_reported_as_themselves :
+    Gen.signalListen = [("hangup", "Hangup"), ("interrupt", "Interrupt"), ("quit", "Quit"), ("terminate", "Terminate"),
+                        ("user_defined1", "User1"), ("user_defined2", "User2")] ∧ Gen.signalListenOdd = [] := by decide
 
 end Wp
